@@ -226,6 +226,64 @@ fn exit_kill_after_body(period_ms: u64, kill: bool, busy: bool) -> vsched::Body 
     })
 }
 
+/// an interval whose handle is aborted after `ticks` periods and a quarter: nothing is delivered afterwards
+fn interval_abort_body(period_ms: u64, ticks: u64) -> vsched::Body {
+    Arc::new(move || {
+        Box::pin(async move {
+            let log = Log::default();
+            let (a, ah) = Actor::spawn(None, Probe, args("A", Prog::default(), &log)).await.expect("A");
+            let t0 = vsched::now();
+            let p = period_ms * MS;
+            let h = a.send_interval(Duration::from_millis(period_ms), || do_msg(1, vec![]));
+            vsched::sleep(Duration::from_nanos(ticks * p + p / 4)).await;
+            h.abort();
+            let aborted_at = vsched::now() - t0;
+            vsched::sleep(Duration::from_nanos(3 * p)).await;
+            vsched::quiesce_time();
+            let ts: Vec<u64> = handled(&log, "A").iter().map(|x| x.1 - t0).collect();
+            let mut bad = Vec::new();
+            if ts.len() as u64 != ticks {
+                bad.push(format!("the interval handle was aborted at {aborted_at} ns after {ticks} ticks, but {} messages were delivered: {ts:?}", ts.len()));
+            }
+            if a.get_status() != ractor::ActorStatus::Running {
+                bad.push(format!("aborting the interval handle left the target {:?}", a.get_status()));
+            }
+            a.stop(None);
+            let _ = ah.await;
+            Outcome { key: format!("ticks={ts:?}"), violations: bad }
+        })
+    })
+}
+
+/// exit_after / kill_after whose handle is aborted before the period elapsed: the actor keeps running
+fn exit_kill_abort_body(period_ms: u64, kill: bool) -> vsched::Body {
+    Arc::new(move || {
+        Box::pin(async move {
+            let log = Log::default();
+            let (a, ah) = Actor::spawn(None, Probe, args("A", Prog::default(), &log)).await.expect("A");
+            let h = if kill { a.kill_after(Duration::from_millis(period_ms)) } else { a.exit_after(Duration::from_millis(period_ms)) };
+            if period_ms > 0 {
+                vsched::sleep(Duration::from_nanos(period_ms * MS / 2)).await;
+            }
+            h.abort();
+            vsched::sleep(Duration::from_nanos(2 * period_ms * MS + MS)).await;
+            vsched::quiesce_time();
+            let mut bad = Vec::new();
+            let st = a.get_status();
+            if st != ractor::ActorStatus::Running {
+                bad.push(format!("{} was aborted before its period elapsed but the actor is {st:?}", if kill { "kill_after" } else { "exit_after" }));
+            }
+            let answered = a.call(|reply| PMsg::Call { tag: 5, reply, steps: vec![] }, Some(Duration::from_millis(5))).await;
+            if !matches!(answered, Ok(ractor::rpc::CallResult::Success(5))) && st == ractor::ActorStatus::Running {
+                bad.push("the actor no longer answers after the aborted timer".into());
+            }
+            a.stop(None);
+            let _ = ah.await;
+            Outcome { key: format!("{st:?}"), violations: bad }
+        })
+    })
+}
+
 pub fn plan(tier: &str) -> Plan {
     let thorough = tier == "thorough";
     let cfg = ExecCfg::default();
@@ -260,10 +318,16 @@ pub fn plan(tier: &str) -> Plan {
     for (p, kill, busy) in [(5u64, false, false), (5, true, false), (5, true, true), (5, false, true), (0, false, false), (1, true, false)] {
         units.push(Unit::explore(Job::new(format!("{}/{p}ms/busy={busy}", if kill { "kill_after" } else { "exit_after" }), cfg.clone(), Some(bound), exit_kill_after_body(p, kill, busy))));
     }
+    for (p, ticks) in [(1u64, 0u64), (1, 2), (5, 1), (5, 3)] {
+        units.push(Unit::explore(Job::new(format!("interval/{p}ms/abort-after-{ticks}ticks"), cfg.clone(), Some(bound), interval_abort_body(p, ticks))));
+    }
+    for (p, kill) in [(0u64, false), (0, true), (1, false), (5, false), (5, true)] {
+        units.push(Unit::explore(Job::new(format!("{}/{p}ms/aborted", if kill { "kill_after" } else { "exit_after" }), cfg.clone(), Some(bound), exit_kill_abort_body(p, kill))));
+    }
     Plan {
         property: "C12",
         units,
-        rule: "period in {0, 1 us, 900 us, 1.5 ms, 1 ms, 5 ms} x target exit before / exactly at / after the expiry (stop or kill) x handle abort right after the handle was obtained (before the timer task ran) / before / at / after the expiry x interval with message construction that burns half a period x exit_after / kill_after on idle and busy actors, on the virtual clock; a deviation-bounded DFS explores same-instant ties (timer vs. unrelated ready task vs. exit); oracle on exact virtual timestamps; non-trivial = execution with >= 1 branching decision".into(),
+        rule: "period in {0, 1 us, 900 us, 1.5 ms, 1 ms, 5 ms} x target exit before / exactly at / after the expiry (stop or kill) x handle abort right after the handle was obtained (before the timer task ran) / before / at / after the expiry x interval with message construction that burns half a period x aborted interval handles x exit_after / kill_after on idle and busy actors and with their handle aborted half-way, on the virtual clock; a deviation-bounded DFS explores same-instant ties (timer vs. unrelated ready task vs. exit); oracle on exact virtual timestamps; non-trivial = execution with >= 1 branching decision".into(),
         assumptions: vec![
             "the seam's Interval (next_tick += period, the algorithm of the repository's async-std backend) stands in for tokio's Interval: the no-drift clause is decided for the loop in time.rs on top of it, not for tokio's timer wheel".into(),
             "computation takes zero virtual time unless the harness burns it".into(),
